@@ -45,5 +45,17 @@ Theorem norm_keeps_digits : norm_keeps_digits_stmt.
 Proof. exact MatrixSpec.norm_keeps_digits. Qed.
 Print Assumptions norm_keeps_digits.
 
+(* one format in full (the NWChem electron section, Model/Nwchem.v): every exponent and coefficient string of the normalised
+   basis is a token of some line of the text *)
+From BSE Require Import Model.Nwchem Proofs.NwchemDefs.
+From BSE Require Proofs.NwchemSpec.
+Theorem nwchem_no_number_lost : nw_no_number_lost_stmt.
+Proof. exact NwchemSpec.nw_no_number_lost. Qed.
+Print Assumptions nwchem_no_number_lost.
+
+Theorem nwchem_write_total : nw_write_total_stmt.
+Proof. exact NwchemSpec.nw_write_total. Qed.
+Print Assumptions nwchem_write_total.
+
 Example some_writer_recontracts : exists w, assoc "nwchem" writer_map = Some w /\ forallb recontracting (w_pipeline w) = true /\ w_pipeline w <> [].
 Proof. eexists; split; [vm_compute; reflexivity|]. split; [vm_compute; reflexivity | discriminate]. Qed.
